@@ -4,15 +4,32 @@
 // `Iterator::find` + `Option::cloned` over `IndexSet::iter` (entry order).
 // ===========================================================================
 
-/// R12: `$set.iter().find(|d| d.public_key() == &$key).cloned()` — the first
-/// element, in set order, whose public key equals `$key` (DevicePublicKey:
-/// derived PartialEq on its 32 bytes), cloned (derived Clone: same value);
-/// None when there is none.
+/// `#[derive(PartialEq, Eq)]` on `pub struct DevicePublicKey([u8; SIZE])`
+/// (crates/core/src/device.rs:30): equality of the 32 bytes.  R6 drops the
+/// derive; this is its std meaning (needed now that the `find` closure of
+/// DeviceReducer::reduce is verified code).
+impl vstd::std_specs::cmp::PartialEqSpecImpl for DevicePublicKey {
+    open spec fn obeys_eq_spec() -> bool { true }
+    open spec fn eq_spec(&self, other: &DevicePublicKey) -> bool { self.bytes() == other.bytes() }
+}
+impl PartialEq for DevicePublicKey {
+    #[verifier::external_body]
+    fn eq(&self, other: &DevicePublicKey) -> bool { self.0 == other.0 }
+}
+
+/// R12: `$set.iter().find($p).cloned()` with the predicate `$p` kept as extracted
+/// code (this contract only quantifies over ITS post-condition).  std meaning of
+/// `Iterator::find` over `indexmap::set::Iter` (entry order): the first element
+/// on which `$p` answers true (and `$p` answered false on every earlier one),
+/// cloned (derived Clone: same value); None iff `$p` answered false on all.
 #[verifier::external_body]
-pub fn vfind_device(devices: &IndexSet<TrustedDevice>, public_key: &DevicePublicKey) -> (r: Option<TrustedDevice>)
+pub fn vfind_device_by<F: Fn(&&TrustedDevice) -> bool>(devices: &IndexSet<TrustedDevice>, f: F) -> (r: Option<TrustedDevice>)
+    requires
+        forall|d: &&TrustedDevice| #[trigger] f.requires((d,)),
     ensures
-        r is Some <==> s_has::<TrustedDevice>(devices@, public_key.bytes()),
         r is Some ==> exists|i: int| 0 <= i < devices@.len() && #[trigger] devices@[i] == r->Some_0
-            && devices@[i].pk().bytes() == public_key.bytes()
-            && (forall|j: int| 0 <= j < i ==> (#[trigger] devices@[j]).pk().bytes() != public_key.bytes()),
+            && f.ensures((&&devices@[i],), true)
+            && (forall|j: int| 0 <= j < i ==> f.ensures((&&#[trigger] devices@[j],), false)),
+        r is None ==> (forall|j: int| 0 <= j < devices@.len() ==> f.ensures((&&#[trigger] devices@[j],), false)),
 { unimplemented!() }
+
